@@ -19,3 +19,21 @@ Theorem C13_extension :
       load inflate (firstn (length bs - length rest) bs ++ tail) = Ok f.
 Proof. exact load_extension. Qed.
 Print Assumptions C13_extension.
+
+(* every prefix classified: those that end before the end of the last frame fail with UnexpectedEof,
+   all the others load as the very same sprite *)
+Theorem C13_prefix_classified :
+  forall (inflate : list Z -> Z -> zres) (bs : list Z) (f : file) (rest : list Z),
+    load_rest inflate bs = Ok (f, rest) ->
+    forall m : nat,
+      load inflate (firstn m bs) = if (m <? length bs - length rest)%nat then Err eof else Ok f.
+Proof. exact load_prefix_classified. Qed.
+Print Assumptions C13_prefix_classified.
+
+(* no prefix loads as a smaller or different sprite *)
+Theorem C13_prefix_never_other :
+  forall (inflate : list Z -> Z -> zres) (bs : list Z) (f : file) (rest : list Z),
+    load_rest inflate bs = Ok (f, rest) ->
+    forall (m : nat) (g : file), load inflate (firstn m bs) = Ok g -> g = f /\ (length bs - length rest <= m)%nat.
+Proof. exact load_prefix_never_other. Qed.
+Print Assumptions C13_prefix_never_other.
